@@ -498,6 +498,20 @@ func (r *c20run) checkFail() error {
 	if fmt.Sprint(names) != fmt.Sprint(want) {
 		return fmt.Errorf("NEXT: %d shots used rows %v, consecutive rows are %v", c.Shots, names, want)
 	}
+	// one sample per executed step: the call that went out (200) and the step that failed before its call
+	tags := map[string]int{}
+	for _, s := range r.samples {
+		tags[s.Tag]++
+		if s.Tag == "s1.hello" && s.Proto != 200 {
+			return fmt.Errorf("SAMPLES: the answered call is reported with code %d", s.Proto)
+		}
+		if s.Tag == "s1.bad" && s.Proto == 200 {
+			return fmt.Errorf("SAMPLES: the step that could not be rendered is reported as a success")
+		}
+	}
+	if len(r.samples) != 2*c.Shots || tags["s1.hello"] != c.Shots || tags["s1.bad"] != c.Shots {
+		return fmt.Errorf("SAMPLES: %d shots of [answered call, step failing before its call, step not reached] reported %v; one sample per executed step is %d x s1.hello and %d x s1.bad", c.Shots, r.samples, c.Shots, c.Shots)
+	}
 	return nil
 }
 
@@ -739,6 +753,9 @@ func runC20(t interface{ Fatal(...any) }, spec *hutil.Spec, out *hutil.Out, e *v
 		}
 		if spec.Property == "C19" && c.Mode != "codes" && c.Mode != "scodes" && c.Mode != "sfail" {
 			continue
+		}
+		if spec.Property == "C10" && c.Mode != "scodes" && c.Mode != "sfail" && c.Mode != "scenario" {
+			continue // C10: the sample-per-step clause for the gRPC scenario gun
 		}
 		if out.OverBudget() {
 			return
